@@ -73,7 +73,6 @@ def findlabels(code, opc):
             elif op in opc.JABS_OPS:
                 jump_offset = arg * 2 if opc.version_tuple >= (3, 10) else arg
             else:
-                print("XXX", offset, op)
                 continue
             if jump_offset not in offsets:
                 offsets.append(jump_offset)
